@@ -42,11 +42,16 @@ SLOW_GENERATORS = {"real_pictures", "signal_range", "static_ramps", "static_nois
                    "interlace_mode_and_pixel_aspect_ratio", "source_parameters_encodings", "custom_quantization_matrix"}
 
 
+LARGE_SLICE_GENERATORS = {"lossless_quantization", "custom_quantization_matrix", "slice_size_scaler", "slice_padding_data",
+                          "dangling_bounded_block_data", "static_gray", "slice_prefix_bytes"}
+
+
 def one_config(job):
     seed, idx = job[0], job[1]
     focus = len(job) > 2 and job[2]     # focused sweep: only the cheap, slice/stream-structure generators
-    rng = random.Random((seed << 20) + idx + 77 + (5000000 if focus else 0))
-    res = {"idx": idx, "focus": len(job) > 2 and bool(job[2]), "problems": [], "cases": 0, "names": [], "notes": [], "by_case": {}}
+    large = focus == "large"            # large-slice sweep: few slices of many coefficients (length fields, scalers)
+    rng = random.Random((seed << 20) + idx + 77 + (5000000 if focus else 0) + (3000000 if focus == "large" else 0))
+    res = {"idx": idx, "focus": (job[2] if len(job) > 2 else False), "problems": [], "cases": 0, "names": [], "notes": [], "by_case": {}}
     import time
     t0 = time.time()
     try:
@@ -57,7 +62,21 @@ def one_config(job):
         import vc2_conformance.test_cases.decoder  # noqa: registers generators
         from vc2_conformance.picture_generators import mid_gray, static_sprite, repeat_pictures
         kw = common.random_small_config(rng, max_w=16, max_h=8)
-        if idx % 3 == 0 or focus:
+        if large:
+            kw["frame_width"], kw["frame_height"] = rng.choice([(32, 16), (32, 32), (48, 16), (64, 32), (40, 24)])
+            if kw["fields"] or kw["interlaced"]:
+                kw["frame_height"] = (kw["frame_height"] // 4) * 4
+            kw["slices_x"], kw["slices_y"] = rng.choice([(1, 1), (1, 1), (2, 1), (1, 2), (2, 2)])
+            kw["fragment_slice_count"] = 0 if rng.random() < 0.7 else rng.randint(1, kw["slices_x"] * kw["slices_y"])
+            kw["dwt_depth"], kw["dwt_depth_ho"] = rng.choice([(1, 0), (2, 0), (1, 1), (0, 0)])
+            kw["quantization_matrix"] = None
+            if not common.has_default_quant_matrix(kw["wavelet_index"], kw["wavelet_index_ho"], kw["dwt_depth"], kw["dwt_depth_ho"]) \
+                    or rng.random() < 0.2:
+                kw["quantization_matrix"] = common.flat_quant_matrix(kw["dwt_depth"], kw["dwt_depth_ho"], rng, 3)
+            if not kw["lossless"]:
+                n = kw["slices_x"] * kw["slices_y"]
+                kw["picture_bytes"] = n * rng.choice([300, 600, 1100, 2000]) + rng.randrange(0, n)
+        elif idx % 3 == 0 or focus:
             # every third configuration: a multi-row, multi-column slice grid (slice-indexed generators)
             kw["slices_x"], kw["slices_y"] = rng.choice([(2, 2), (3, 2), (2, 3), (4, 3), (3, 3)])
             if kw["fragment_slice_count"]:
@@ -90,7 +109,9 @@ def one_config(job):
 
         names = []
         for gen in REG.iter_independent_generators(cf):
-            if focus and gen.args[0].__name__ in SLOW_GENERATORS:
+            if large and gen.args[0].__name__ not in LARGE_SLICE_GENERATORS:
+                continue
+            if focus and not large and gen.args[0].__name__ in SLOW_GENERATORS:
                 continue
             try:
                 cases = list(gen())
@@ -98,7 +119,14 @@ def one_config(job):
                 res["notes"].append("generator raised %s" % type(e).__name__)
                 continue
             except Exception as e:
-                # a generator that fails produces no test case: outside the property's statement, recorded
+                from vc2_conformance.bitstream import exceptions as bsx
+                from vc2_conformance import decoder as _dec
+                if isinstance(e, (bsx.OutOfRangeError, _dec.ConformanceError)) or type(e).__module__.endswith("bitstream.exceptions"):
+                    # the generator built a test case that it could not itself serialise / validate
+                    res["problems"].append({"case": gen.args[0].__name__, "key": "generator-cannot-serialise-its-test-case",
+                                            "detail": "%s: %s" % (type(e).__name__, str(e)[:200])})
+                    continue
+                # a generator that fails otherwise produces no test case: outside the property's statement, recorded
                 res["notes"].append("generator exception %s: %s @ %s" % (type(e).__name__, str(e)[:80],
                                     traceback.format_exc().strip().split("\n")[-3].strip()[:120]))
                 continue
@@ -169,7 +197,9 @@ def run(ctx):
         "evaluations = test cases; distinct non-trivial = (configuration, test case name) pairs that validated and decoded >= 1 picture")
     n = ctx.pick(14, 160)
     nf = ctx.pick(70, 1200)
-    results = common.pmap(one_config, [(ctx.seed, i) for i in range(n)] + [(ctx.seed, i, True) for i in range(nf)], chunksize=1)
+    nl = ctx.pick(14, 200)
+    results = common.pmap(one_config, [(ctx.seed, i) for i in range(n)] + [(ctx.seed, i, True) for i in range(nf)]
+                          + [(ctx.seed, i, "large") for i in range(nl)], chunksize=1)
     for r in results:
         st = r.get("status", "?")
         ctx.distribution[st.split(":")[0]] = ctx.distribution.get(st.split(":")[0], 0) + 1
@@ -178,11 +208,11 @@ def run(ctx):
         ctx.evaluations += r["cases"]
         bad_cases = set(p["case"] for p in r["problems"])
         for nme in range(r["cases"] - len(bad_cases)):
-            ctx.nontrivial.add("%s%d/%d" % ("f" if r.get("focus") else "", r["idx"], nme))
+            ctx.nontrivial.add("%s%d/%d" % (str(r.get("focus") or ""), r["idx"], nme))
         if st.startswith("harness-exception"):
             ctx.obligation("harness:C05 config %d" % r["idx"], False, "harness", r.get("detail", ""))
         for p in r["problems"]:
-            ctx.violation(p["key"] + ":" + p["case"].split("[")[0], {"seed": ctx.seed, "idx": r["idx"], "focus": bool(r.get("focus")), "config": r.get("config"), "case": p["case"]},
+            ctx.violation(p["key"] + ":" + p["case"].split("[")[0], {"seed": ctx.seed, "idx": r["idx"], "focus": r.get("focus"), "config": r.get("config"), "case": p["case"]},
                           p["detail"])
         for nt in r["notes"]:
             ctx.note("config %d: %s" % (r["idx"], nt))
@@ -193,7 +223,7 @@ def run(ctx):
 
 def replay(ctx, data):
     inp = data["input"]
-    r = one_config((inp["seed"], inp["idx"], bool(inp.get("focus"))))
+    r = one_config((inp["seed"], inp["idx"], inp.get("focus") or False))
     hits = [p for p in r["problems"] if p["case"] == inp.get("case")] or r["problems"]
     print(r.get("status"), hits[:3])
     return 1 if hits else 0
